@@ -2,7 +2,7 @@
    Only the property theorems, each closed by a lemma proved under Codec/.  The theorems are about
    the MODEL of the bincode 1.x wire format / serde data model, of the MemberId wrappers and of
    sinktools::demux_map (Codec/Model.v); serde and bincode themselves are modelled, not verified. *)
-From HV Require Import Codec.Model Codec.PRoundtrip.
+From HV Require Import Codec.Model Codec.PRoundtrip Codec.PBackpressure.
 
 (* every value of every (nested) payload type is reconstructed exactly, whatever follows it in
    the byte stream *)
@@ -46,6 +46,33 @@ Theorem C35_delivery : forall t sender chans items d,
             (filter (fun it => tagless_eqb d (into_tagless (fst it))) items)).
 Proof. exact deliver_exact. Qed.
 Print Assumptions C35_delivery.
+
+(* demux_map readiness: Ready exactly when EVERY member sink answered Ready in that poll *)
+Theorem C35_demux_ready_all : forall d,
+  snd (demux_poll d) = true <-> forall km, In km d -> snd (ms_poll (snd km)) = true.
+Proof. exact demux_ready_all. Qed.
+Print Assumptions C35_demux_ready_all.
+
+(* delivery under back-pressure: for every readiness script of every member (one-slot mailboxes), a
+   sender that follows the Sink contract (poll_ready until Ready, then start_send) delivers every
+   message to exactly the addressed member, once, in order; nothing is overwritten or lost *)
+Theorem C35_delivery_under_backpressure : forall items f d,
+  Forall (fun km => (length (ms_script (snd km)) <= f)%nat) d ->
+  (forall it, In it items -> d_get d (fst it) <> None) ->
+  exists d', bp_run (S f) d items = Some d' /\
+    forall k s, d_get d k = Some s ->
+      exists s', d_get d' k = Some s' /\
+                 ms_got s' = content s ++ addressed_to N.eqb k items /\
+                 ms_lost s' = ms_lost s /\ ms_slot s' = None.
+Proof. exact bp_delivery. Qed.
+Print Assumptions C35_delivery_under_backpressure.
+
+Example C35_nonvacuous_backpressure :
+  option_map (map (fun km => (fst km, ms_got (snd km), ms_lost (snd km))))
+    (bp_run 5 [(1, mkMS [false; true] None [] 0); (2, mkMS [true; false; false] None [] 0)]
+            [(1, 7); (1, 8); (2, 9)])
+  = Some [(1, [7; 8], 0); (2, [9], 0)].
+Proof. reflexivity. Qed.
 
 (* non-vacuity: a nested value that encodes (so the hypotheses are satisfiable), and a delivery *)
 Example C35_nonvacuous_encode :
